@@ -70,7 +70,7 @@ class TimeDeltaArray(MutableSequence[TimeDelta]):
             as_tuple = TimeValueTuple.from_cvi(*entry)
             return TimeDelta.from_tuple(as_tuple)
         elif isinstance(index, slice):
-            sliced_entries = self._array[index]
+            sliced_entries = self._array[index].copy()
             new_array = TimeDeltaArray()
             new_array._array = sliced_entries
             return new_array
@@ -113,7 +113,7 @@ class TimeDeltaArray(MutableSequence[TimeDelta]):
             start, stop, step = index.indices(len(self))
             selected_count = len(range(start, stop, step))
             new_entry_count = len(values)
-            if step > 1 and new_entry_count != selected_count:
+            if step != 1 and new_entry_count != selected_count:
                 raise invalid_arg_value(
                     "value", "iterable with the same length as the slice", value
                 )
@@ -132,7 +132,7 @@ class TimeDeltaArray(MutableSequence[TimeDelta]):
                 ]
                 self._array = np.insert(
                     self._array,
-                    stop,
+                    start + selected_count,
                     [item.to_tuple().to_cvi() for item in values[selected_count:]],
                 )
             else:
